@@ -390,3 +390,18 @@ def coq_case(c, o):
     if k == "rowname":
         return app("CRowName", _fs(c["fs"]), vs, cstr(c["name"]), _res(o, _vout))
     return None
+
+
+LEVEL_TEXT = ("Proof (Coq 8.16, kernel-checked, no axioms): escape/unescape mutually inverse for all "
+              "strings, exact rejection set of unescape, delimiter/newline safety, split(join vs) for "
+              "all records, delimiter count, injectivity, integer and string cast/format round trip "
+              "for all Z / all non-empty strings, and all four Row access paths equal the cast of the "
+              "stored data for every index and slice (slice.indices semantics modelled exactly). The "
+              "model is tied to delphin/tsdb.py by regenerated kernels (Tie A) and by kernel-evaluated "
+              "correspondence on an exhaustive small-alphabet sweep plus random inputs (Tie B). "
+              "Partial: the float clause rests on float(repr(x))==x; date clause see level_note.")
+LEVEL_NOTE = ("Trusted: Coq kernel + vm_compute; the hand model of split/join/cast/format/Row validated "
+              "by correspondence; int() modelled on [+-]?[0-9]+ only; floats not modelled (language "
+              "guarantee, oracle-sampled); dates oracle-sampled unless listed among the theorems.")
+TECHNIQUE = "Coq proof over executable Gallina model + regenerated kernels + kernel-checked correspondence"
+DESIGN_REF = "DESIGN.md section 6, C08"
